@@ -182,6 +182,13 @@ def main():
     if unconfirmed:
         broken.append(f"{len(unconfirmed)} model counterexamples not reproduced on the real simulator, first: {unconfirmed[0][3][:300]}")
 
+    import C01w
+    wrep = None
+    if "--replay" in sys.argv and ndes == 0 and "wide" in r.get("kind", ""):
+        wrep = r["program"]
+    wviol, wbroken = C01w.run(rep, driver, replay=wrep)
+    broken += wbroken
+
     def is_known(desc):
         return any(k.split()[0] in desc for k in known)
 
@@ -203,6 +210,8 @@ def main():
             rep.known(f"{i} {v}"); continue
         rep.violation(dict(property=CID, kind="real simulator traces of constructed vs post-processed circuit differ", variant=v,
                            program=prog[i], stimulus=stim, real_simulator=d, broken=broken), tag="diff")
+    for v in wviol:
+        rep.violation(dict(broken=broken, **v), tag="wide")
     if broken and not rep.violations:
         rep.violation(dict(property=CID, kind="proof, tie or certificate broken; no failing input found", broken=broken), nofail=True, tag="tie")
     rep.finish()
